@@ -718,6 +718,7 @@ def gen_route_scenario(rng):
         amt = rng.randrange(1000, 10 ** 9)
         sender = rng.choice(['bob', 'mallory'])
         to = rng.choice([None, 'carol', sender])
+        steps.append(dict(op='router_reverse_simulate', route=route, amount=str(rng.choice([amt, amt * 1000, rng.randrange(1, 10 ** 5)]))))
         steps.append(dict(op='router_simulate', route=route, amount=str(amt), _for=len(steps) + 1))
         st = dict(op='router_swap', sender=sender, route=route, amount=str(amt), to=to, minimum_receive=None, _route=True)
         mode = rng.random()
@@ -778,6 +779,9 @@ def check_route_scenario(case, out):
                 outs.add(_akey(b))
             if len(outs) > 1:
                 v.append(('C13', 'route with %d dangling output assets accepted' % len(outs), k))
+        if st['op'] in ('router_simulate', 'router_reverse_simulate') and res['ok'] and res['res'].get('composed') is not None:
+            if int(res['res']['amount']) != int(res['res']['composed']):
+                v.append(('C12', 'router %s quote %s differs from the hop-by-hop composition of the pair queries %s for a %d-hop route' % ('reverse' if 'reverse' in st['op'] else 'forward', res['res']['amount'], res['res']['composed'], len(st['route'])), k))
         if st.get('_route') and '_quote' in st and k > 0 and case['steps'][k - 1]['op'] == 'router_simulate' and out['steps'][k - 1]['ok']:
             q = int(out['steps'][k - 1]['res']['amount'])     # the quote taken in THIS run, in the state the route executes in
             recv = st.get('to') or st['sender']
